@@ -110,11 +110,19 @@ fn deflate_level(b: &[u8], level: u32) -> Vec<u8> {
     e.finish().unwrap()
 }
 
-/// exactly what `from_str` does: ONE `read` into a MAX_DECOMPRESSED_SIZE buffer
+/// exactly what `from_str` does (since fix f96075f): read into a MAX_DECOMPRESSED_SIZE buffer until
+/// the stream ends or the buffer is full (before the fix: ONE `read` call)
 fn read_once(compressed: &[u8]) -> Result<Vec<u8>, String> {
     let mut decoder = ZlibDecoder::new(compressed);
     let mut buf = vec![0; MAX_DECOMPRESSED_SIZE];
-    let n = decoder.read(&mut buf).map_err(|e| e.to_string())?;
+    let mut n = 0;
+    while n < buf.len() {
+        let k = decoder.read(&mut buf[n..]).map_err(|e| e.to_string())?;
+        if k == 0 {
+            break;
+        }
+        n += k;
+    }
     buf.truncate(n);
     Ok(buf)
 }
